@@ -12,7 +12,7 @@ use crate::props::c04::{build_state, Recipe, StateSpec};
 use crate::util::{Json, Rng};
 
 pub const C14_PAIRS: [&str; 6] = ["P8xP8", "T24xT24", "B1xB1", "L200xB1", "A64xP8", "B3xB1"];
-const STATES: [Recipe; 6] = [Recipe::Full, Recipe::Saturated, Recipe::Fresh, Recipe::Small, Recipe::Tombstoned, Recipe::History];
+const STATES: [Recipe; 8] = [Recipe::Full, Recipe::Saturated, Recipe::SaturatedRandom, Recipe::SaturatedRandom, Recipe::Fresh, Recipe::Small, Recipe::Tombstoned, Recipe::History];
 /// only the entry-style operations (and a little lookup) are drawn
 const W: [u32; NOPS] = [0, 2, 0, 1, 1, 0, 0, 3, 30, 22, 0, 0, 0, 0, 0, 0, 0, 0, 0, 30, 22, 0, 0, 6];
 
@@ -26,7 +26,7 @@ pub fn run(c: &mut Ctx) {
 pub fn scenario<K: Elem, V: Elem>(c: &mut Ctx, idx: u64, rng: &mut Rng) {
     let recipe = STATES[((crate::util::mix(idx) / C14_PAIRS.len() as u64) % STATES.len() as u64) as usize];
     let plan = match recipe {
-        Recipe::Saturated | Recipe::Tombstoned if rng.chance(3, 4) => *rng.pick(&[Plan::Ident, Plan::IdentOneTag, Plan::Zero, Plan::SamePos, Plan::Palette(1, 3), Plan::Tail, Plan::Max]),
+        Recipe::Saturated | Recipe::SaturatedRandom | Recipe::Tombstoned if rng.chance(3, 4) => *rng.pick(&[Plan::Ident, Plan::IdentOneTag, Plan::Zero, Plan::SamePos, Plan::Palette(1, 3), Plan::Palette(3, 1), Plan::Palette(4, 4), Plan::Stride, Plan::Tail, Plan::Max]),
         _ => pick_plan(rng),
     };
     let spec = StateSpec { plan, salt: rng.next(), recipe, seed: rng.next(), size: rng.below(1000) as u32 };
